@@ -403,7 +403,11 @@ def run_check(prop, tier, seed, jobs=None):
             conf = conformance.run(seed)
         except Exception as e:
             conf = {"calls": 0, "mismatches": [("conformance sampler", "crashed: %r" % (e,))]}
-        main[0]["bounded"].append({"label": "primitive-model conformance sample", "calls": conf["calls"], "mismatches": conf["mismatches"]})
+        usedp = sorted({k for r in main + can for k in r.get("prims", {})})
+        skip = {"bernoulli", "torch.tensor(sym)"}        # the RNG is a recording stub (trusted, see assumptions); tensor(sym) is covered as "numpy()" round trips
+        main[0]["bounded"].append({"label": "primitive-model conformance sample", "calls": conf["calls"], "mismatches": conf["mismatches"],
+                                   "models_used_by_this_run": len(usedp),
+                                   "models_used_without_a_conformance_case": [k for k in usedp if k not in conformance.COVERED and k not in skip]})
     gcalls, gmis, gskip = 0, [], []
     for r in main:
         g = r.get("gconf")
